@@ -105,6 +105,11 @@ def re_text(e, prec=0):
             inner = "(?:" + re_text(e[3], 0) + ")"
         lo, hi = e[1], e[2]
         return inner + ("{%d}" % lo if hi == lo else "{%d,}" % lo if hi is None else "{%d,%d}" % (lo, hi))
+    if k == "i":
+        # case-insensitive literal: (?i)lit as the whole pattern (e[2] == 0) or the group (?i:lit); the model is given one
+        # class per letter (both cases; the two non-ASCII code points that fold to k and s do not occur in the names used)
+        body = "".join(("\\" + chr(c)) if c in SPECIAL else chr(c) for c in e[1])
+        return ("(?i)" + body) if e[2] == 0 and prec == 0 else "(?i:" + body + ")"
     if k == "Q":
         # \Q...\E quoting (e[2]: terminated or running to the end of the pattern); the model is given the literal
         return "\\Q" + e[1].decode("latin1") + ("\\E" if e[2] else "")
@@ -135,6 +140,17 @@ def re_enc(e):
         for q in reversed(parts[:-1]):
             acc = ("&", q, acc)
         return re_enc(acc)
+    if k == "i":
+        acc = None
+        for c in reversed(e[1]):
+            ch = chr(c)
+            if ch.isalpha() and c < 128:
+                rs = [(ord(ch.upper()), ord(ch.upper())), (ord(ch.lower()), ord(ch.lower()))]
+                node = ("[", False, rs)
+            else:
+                node = ("c", c)
+            acc = node if acc is None else ("&", node, acc)
+        return re_enc(acc or ("e",))
     if k == "Q":
         return re_enc(lit_re(e[1]))
     if k == "c":
@@ -160,7 +176,8 @@ REFPOOL = [b"refs/heads/main", b"refs/heads/master", b"refs/heads/feature/x", b"
            b"refs/pull/1/merge", b"refs/changes/12/3412/1", b"refs/changes/1/2/3", b"refs/notes/commits", b"refs/stash",
            b"refs/stash/x", b"refs/foo", b"refs/foo/bar", b"refs/foobar", b"refs/a", b"refs/abc", b"refs/tags/refs/heads",
            b"refs/heads/a", b"refs/tags/b", b"refs/heads/a$", b"refs/heads/main\xc2\xa0", b"refs/tags/v1\xe3\x80\x80", b"refs/foo\xc2\x85",
-           b"refs/heads/\xe2\x80\xa8a", b"refs/heads/release/1.0", b"refs/heads/release-old", b"refs/heads/release.x", b"refs/heads/aa"]
+           b"refs/heads/\xe2\x80\xa8a", b"refs/heads/release/1.0", b"refs/heads/release-old", b"refs/heads/release.x", b"refs/heads/aa",
+           b"refs/heads/Release", b"refs/heads/MAIN", b"refs/tags/V1", b"refs/heads/release"]
 
 
 def gen_refs(rng):
@@ -233,16 +250,39 @@ def gen_groupdefs(rng, deep=False):
         twin = sym0.swapcase() if rng.random() < 0.5 else sym0[:1].swapcase() + sym0[1:]
         if twin != sym0 and twin not in syms and twin.lower() not in ("ignored", "other") and not twin.lower().endswith(".other"):
             defs.append((twin, [("i", rng.choice([b"refs/tags", b"refs/remotes", b"refs/foo", b"refs/heads/feature"]))]))
-    return defs, defs_to_cfg(defs)
+    return defs, defs_to_cfg(defs, rng)
 
 
-def defs_to_cfg(defs):
-    cfg = []
+def defs_to_cfg(defs, rng=None):
+    """The gitconfig entries of the groups, each group's entries in order.  With rng: sometimes the entries of different
+    groups are interleaved (the groups still OPEN in the order of defs: a group exists from its first entry on), and a group
+    is sometimes opened by a setting git-sizer does not know (refgroup.<g>.description), which defines the group's place all
+    the same."""
+    per = []
     for sym, ents in defs:
+        q = []
+        if rng is not None and rng.random() < 0.25:
+            q.append(("refgroup.%s.%s" % (sym, rng.choice(["description", "url", "colour", "Names", "includes"])), rng.choice(["text", "", "refs/heads"])))
         for k, v in ents:
             key = {"n": "name", "i": "include", "x": "exclude", "I": "includeregexp", "X": "excluderegexp"}[k]
             val = v.decode("latin1") if isinstance(v, bytes) else re_text(v)
-            cfg.append(("refgroup.%s.%s" % (sym, key), val))
+            q.append(("refgroup.%s.%s" % (sym, key), val))
+        per.append(q)
+    if rng is None or rng.random() < 0.6:
+        return [e for q in per for e in q]
+    cfg, opened, nxt = [], [], 0
+    while nxt < len(per) or any(opened):
+        choices = [q for q in opened if q]
+        if nxt < len(per):
+            choices.append(None)
+        pick = rng.choice(choices)
+        if pick is None:
+            pick = per[nxt]
+            opened.append(pick)
+            nxt += 1
+        if pick:
+            cfg.append(pick.pop(0))
+        opened = [q for q in opened if q]
     return cfg
 
 
@@ -299,6 +339,20 @@ def gen_re_refs(rng):
         if form == 4:
             return ("|", ("&", ("^",), lit_re(a)), lit_re(b"refs/heads/a$"))      # ends with an escaped dollar
         return ("&", ("^",), ("&", ("|", lit_re(a), lit_re(b)), ("$",)))
+    if rng.random() < 0.1:
+        # case-insensitive literals: the whole pattern, a group, a group after a plain literal, next to an operator
+        form = rng.randrange(6)
+        if form == 0:
+            return ("i", rng.choice([b"refs/heads/main", b"REFS/HEADS/MAIN", b"refs/heads/release", b"Refs/Tags/V1", b"refs/stash"]), 0)
+        if form == 1:
+            return ("i", rng.choice([b"refs/heads/Release", b"refs/tags/v1.0", b"REFS/FOO", b"refs/heads/a$"]), 1)
+        if form == 2:
+            return ("&", lit_re(b"refs/heads/"), ("i", rng.choice([b"RELEASE", b"main", b"Main", b"a"]), 1))
+        if form == 3:
+            return ("&", ("i", rng.choice([b"refs/HEADS/", b"REFS/tags/"]), 1), ("*", (".",)))
+        if form == 4:
+            return ("|", ("i", b"refs/heads/MAIN", 1), lit_re(b"refs/tags/v1"))
+        return ("&", ("i", b"refs/tags/", 1), ("&", ("i", b"V", 1), ("+", ("[", False, [(48, 57)]))))
     if rng.random() < 0.12:
         # counted repetitions, alone (the pattern's only regexp syntax) and next to other syntax; quoting with \Q ... \E
         form = rng.randrange(6)
